@@ -3,7 +3,7 @@ C11: `Req` of a shipped combination from the two per-table obligations (`cfgOKb`
 once per table in `Generated/C11Combos`), and the tie between `Profile.lookup` and the merged dictionary
 `dict(cfg.accessors, **log.accessors)` of `Model/Struct.lean`.
 -/
-import GeckoModel.Model.Facade
+import GeckoModel.Model.FacadeReq
 import GeckoModel.Model.Struct
 
 namespace GeckoModel.Facade
